@@ -144,6 +144,7 @@ func runMutant(pd *PropDef, name string) int {
 		r := NewReport(pd.ID, "quick")
 		r.quiet = true
 		analyse(pd, r, "quick", ov)
+		r.checkFloors()
 		for _, o := range r.obls {
 			if o.Rule == "load" {
 				fmt.Println("mutant does not type-check: " + short(o.Detail, 300))
